@@ -33,12 +33,15 @@ struct PolA0 { // all defaults, aligned map
 	uintptr_t map(size_t len, size_t align) { return slabh_map(len, align); }
 	void unmap(uintptr_t b, size_t l) { slabh_unmap(b, l); }
 };
-struct PolU0 { // all defaults, unaligned map, poison hooks
+struct PolU0 { // all defaults, unaligned map, poison hooks, and the optional tracing hooks (so that slab.hpp's trace path is compiled in and runs)
 	uintptr_t map(size_t len) { return slabh_map(len, 0); }
 	void unmap(uintptr_t b, size_t l) { slabh_unmap(b, l); }
 	void poison(void *p, size_t n) { slabh_poison(0, p, n); }
 	void unpoison(void *p, size_t n) { slabh_poison(1, p, n); }
 	void unpoison_expand(void *p, size_t n) { slabh_poison(2, p, n); }
+	bool enable_trace() { return slabh_trace(nullptr, 0) != 0; }
+	template <class F> void walk_stack(F f) { for (uintptr_t i = 1; i <= 20; i++) f(0x1000 + i); } // deeper than the pool records
+	void output_trace(void *buffer, size_t size) { slabh_trace(buffer, size); }
 };
 // parametrised geometries; the four shapes differ in which members exist (that is what slab.hpp detects)
 // policies may declare their constants with any integral type: odd bucket counts use unsigned int, even ones size_t;
